@@ -1,5 +1,6 @@
 import EupsModel.Lemmas.SetupFrame
 import EupsModel.Lemmas.SetupPresent
+import EupsModel.Lemmas.SetupClear
 /-! C01 — setup yields a consistent environment with no residue of superseded versions.
 Model: `EupsModel/Model/Setup.lean`; lemmas: `EupsModel/Lemmas/Setup*.lean`.
 
@@ -218,6 +219,25 @@ theorem C01_requested_version_partial (db : Db) (rank : Name → Nat) (hdag : Na
       have := install_top_record (r.cfg db) rank hdag (setup (r.cfg db) k) (setup_recOK (r.cfg db) rank hdag k)
         false r.vro d reason hc _ s' (register_already (r.cfg db) 0 d reason (St.init e) ha0 hc) h
       exact ⟨d, reason, hres, by rw [← hname]; exact this⟩
+
+/-- the required half of the closure: when no dependency line of the closure carries `-j`, every name of the closure has
+one declared version (no version conflict is possible) and `max_depth` is not set, then after a successful request for a
+product that was not set up, every `setupRequired` line of the table of every set-up product of the closure has its target
+set up (from an environment where this held — e.g. one with nothing of the closure set up), and the requested product is
+set up.  Together with `C01_closure_sound`: the products set up lie between the required closure and the reach of the
+request; which *optional* dependencies are in is decided by whether they can be resolved (oracle (ii)). -/
+theorem C01_required_closure_partial (db : Db) (fuel : Nat) (r : Request) (e : Setup.Env) (s' : St)
+    (hmd : r.maxDepth = none) (hnj : NoJust db (fun n => ∃ k, Within db r.name k n))
+    (hone : OneVersion db (fun n => ∃ k, Within db r.name k n))
+    (hdecl : RecsDeclared db e) (hnot : setupProd db e r.name = none)
+    (hsat : ReqSat (r.cfg db) (fun n => ∃ k, Within db r.name k n) (fun _ => False) e)
+    (h : runSetup db fuel r e = .ok s') :
+    ReqSat (r.cfg db) (fun n => ∃ k, Within db r.name k n) (fun _ => False) s'.env ∧ ∃ w, s'.env.rec? r.name = some w := by
+  have hcl : Closed (r.cfg db).db (fun n => ∃ k, Within db r.name k n) :=
+    fun d hd ⟨k, hk⟩ g n o j v x t hg => ⟨k + 1, Within.step hk hd rfl hg⟩
+  obtain ⟨h1, _, _, h4⟩ := setup_req (r.cfg db) _ hmd hcl hnj hone fuel (fun _ => False) 0 r.vro r.name r.version none
+    (St.init e) s' ⟨0, Within.root⟩ (Or.inr hnot) (by intro n d x h; simp [St.init, aget] at h) hdecl hsat h
+  exact ⟨h1, h4⟩
 
 /-! ## the hypotheses are satisfiable: the diamond database is a `NameDag`, the empty environment is `EnvOK` -/
 
